@@ -108,6 +108,11 @@ func Pick[T any](q, th T) T {
 
 // Main is called from TestMain of every check package.
 func Main(m *testing.M, property string) {
+	if v := os.Getenv("VERIF_PROPERTY"); v != "" {
+		// a unit of another property's plan may host this package's tests
+		// (C14 re-runs TCP scenarios with wrap-adjacent sequence numbers)
+		property = v
+	}
 	Property = property
 	log.SetOutput(io.Discard)
 	if v := os.Getenv("VERIF_TIER"); v != "" {
